@@ -73,6 +73,12 @@ type pathState struct {
 	trace   []TraceItem
 	done    string // "", "return", "panic"
 	depth   int
+	rets    []retVal // values returned by the most recently inlined callee (constant-propagated where known)
+}
+
+type retVal struct {
+	val   int64
+	known bool
 }
 
 func (s *pathState) clone() *pathState {
@@ -90,6 +96,7 @@ func (s *pathState) clone() *pathState {
 		n.known[k] = v
 	}
 	n.trace = append([]TraceItem{}, s.trace...)
+	n.rets = append([]retVal{}, s.rets...)
 	return n
 }
 
@@ -457,7 +464,29 @@ func (tr *tracer) execStmt(fi *FuncInfo, s ast.Stmt, st *pathState) []*pathState
 			states = tr.execExpr(fi, r, states)
 		}
 		for _, s2 := range states {
-			if len(x.Lhs) == len(x.Rhs) {
+			fromCallee := false
+			if len(x.Rhs) == 1 && len(s2.rets) == len(x.Lhs) {
+				if c, ok := ast.Unparen(x.Rhs[0]).(*ast.CallExpr); ok {
+					name := calleeName(info, c)
+					if tr.inline[name] || tr.autoInline(name) {
+						fromCallee = true
+						for i, l := range x.Lhs {
+							if id, ok := l.(*ast.Ident); ok {
+								delete(s2.alias, id.Name)
+								if s2.rets[i].known {
+									s2.known[id.Name], s2.store[id.Name] = true, s2.rets[i].val
+								} else {
+									delete(s2.known, id.Name)
+								}
+							}
+						}
+					}
+				}
+			}
+			s2.rets = nil
+			if fromCallee {
+				// values taken from the callee's returns
+			} else if len(x.Lhs) == len(x.Rhs) {
 				for i, l := range x.Lhs {
 					tr.assign(info, l, x.Rhs[i], x.Tok, s2)
 				}
@@ -518,6 +547,37 @@ func (tr *tracer) execStmt(fi *FuncInfo, s ast.Stmt, st *pathState) []*pathState
 			states = tr.execExpr(fi, r, states)
 		}
 		for _, s2 := range states {
+			if s2.done == "" && s2.depth > 0 {
+				s2.rets = nil
+				results := x.Results
+				if len(results) == 0 {
+					// bare return: the named results
+					if fd, ok := tr.p.enclosingFuncNode(x).(*ast.FuncDecl); ok && fd.Type.Results != nil {
+						for _, f := range fd.Type.Results.List {
+							for _, nm := range f.Names {
+								results = append(results, nm)
+							}
+						}
+					}
+				}
+				for _, re := range results {
+					rv := retVal{}
+					re = ast.Unparen(re)
+					if k, ok := constInt(info, re); ok {
+						rv = retVal{k, true}
+					} else if id, ok := re.(*ast.Ident); ok {
+						switch {
+						case id.Name == "true":
+							rv = retVal{1, true}
+						case id.Name == "false":
+							rv = retVal{0, true}
+						case s2.known[id.Name]:
+							rv = retVal{s2.store[id.Name], true}
+						}
+					}
+					s2.rets = append(s2.rets, rv)
+				}
+			}
 			if s2.done == "" {
 				s2.done = "return"
 				// returning a freshly built error: mark
@@ -578,6 +638,85 @@ func (tr *tracer) execStmt(fi *FuncInfo, s ast.Stmt, st *pathState) []*pathState
 					s0 = s0s[0]
 				}
 			}
+			endSwitch := func(list []*pathState) []*pathState {
+				for _, r := range list {
+					if r.done == "break-switch" {
+						r.done = ""
+					}
+				}
+				return list
+			}
+			if x.Tag == nil {
+				// switch { case c1: ...; case c2: ...; default: ... } is an if / else-if chain
+				pending := []*pathState{s0}
+				var def *ast.CaseClause
+				for _, cl := range x.Body.List {
+					cc := cl.(*ast.CaseClause)
+					if cc.List == nil {
+						def = cc
+						continue
+					}
+					var still []*pathState
+					for _, ps := range pending {
+						// any of the listed conditions selects the clause
+						cur := []*pathState{ps}
+						for _, ce := range cc.List {
+							var next []*pathState
+							for _, c0 := range cur {
+								for _, bc := range tr.evalBool(info, ce, c0) {
+									if bc.val {
+										out = append(out, endSwitch(tr.execList(fi, cc.Body, []*pathState{bc.st}))...)
+									} else {
+										next = append(next, bc.st)
+									}
+								}
+							}
+							cur = next
+						}
+						still = append(still, cur...)
+					}
+					pending = still
+				}
+				for _, ps := range pending {
+					if def != nil {
+						out = append(out, endSwitch(tr.execList(fi, def.Body, []*pathState{ps}))...)
+					} else {
+						out = append(out, ps)
+					}
+				}
+				continue
+			}
+			// switch len(x) { case 0: ...; default: ... }: the emptiness atom of that length
+			if lc, ok := ast.Unparen(x.Tag).(*ast.CallExpr); ok && exprStr(lc.Fun) == "len" && len(lc.Args) == 1 {
+				zeroOnly := true
+				for _, cl := range x.Body.List {
+					cc := cl.(*ast.CaseClause)
+					if cc.List != nil {
+						if len(cc.List) != 1 {
+							zeroOnly = false
+						} else if k, ok := constInt(info, cc.List[0]); !ok || k != 0 {
+							zeroOnly = false
+						}
+					}
+				}
+				if zeroOnly {
+					atomName := s0.resolve(normAtom(x.Tag)) + " > 0"
+					for _, bc := range tr.atom(atomName, s0, true) {
+						taken := false
+						for _, cl := range x.Body.List {
+							cc := cl.(*ast.CaseClause)
+							if (cc.List != nil) == !bc.val { // case 0 when empty, default when non-empty
+								out = append(out, endSwitch(tr.execList(fi, cc.Body, []*pathState{bc.st}))...)
+								taken = true
+							}
+						}
+						if !taken {
+							out = append(out, bc.st)
+						}
+					}
+					continue
+				}
+			}
 			hasDefault := false
 			for _, cl := range x.Body.List {
 				cc := cl.(*ast.CaseClause)
@@ -597,18 +736,9 @@ func (tr *tracer) execStmt(fi *FuncInfo, s ast.Stmt, st *pathState) []*pathState
 							labels = append(labels, exprStr(e))
 						}
 					}
-					if x.Tag == nil {
-						// switch { case cond: } treated as if chain on first expr
-						for _, bc := range tr.evalBool(info, cc.List[0], n) {
-							if bc.val {
-								out = append(out, tr.execList(fi, cc.Body, []*pathState{bc.st})...)
-							}
-						}
-						continue
-					}
 					n.trace = append(n.trace, TraceItem{Prim: "case", Arg: strings.Join(labels, ","), Pos: cc.Pos()})
 				}
-				out = append(out, tr.execList(fi, cc.Body, []*pathState{n})...)
+				out = append(out, endSwitch(tr.execList(fi, cc.Body, []*pathState{n}))...)
 			}
 			if !hasDefault && x.Tag != nil {
 				n := s0.clone()
@@ -636,6 +766,23 @@ func (tr *tracer) execStmt(fi *FuncInfo, s ast.Stmt, st *pathState) []*pathState
 	case *ast.DeferStmt:
 		return []*pathState{st}
 	case *ast.BranchStmt:
+		// continue / break end this pass through the enclosing loop body (the loop handler resets the marker);
+		// inside a switch clause, break only leaves the switch
+		if st.done == "" && (x.Tok == token.CONTINUE || x.Tok == token.BREAK) && x.Label == nil {
+			if x.Tok == token.BREAK {
+				if _, inSwitch := tr.p.enclosing(x, fi.Decl, func(n ast.Node) bool {
+					switch n.(type) {
+					case *ast.SwitchStmt, *ast.TypeSwitchStmt, *ast.SelectStmt, *ast.ForStmt, *ast.RangeStmt:
+						return true
+					}
+					return false
+				}).(*ast.SwitchStmt); inSwitch {
+					st.done = "break-switch"
+					return []*pathState{st}
+				}
+			}
+			st.done = "next-iteration"
+		}
 		return []*pathState{st}
 	case *ast.EmptyStmt, *ast.LabeledStmt:
 		return []*pathState{st}
@@ -666,6 +813,17 @@ func (tr *tracer) assign(info *types.Info, lhs ast.Expr, rhs ast.Expr, tok token
 		delete(st.alias, id.Name)
 		if c, ok := rhs.(*ast.CallExpr); ok && exprStr(c.Fun) == "len" && len(c.Args) == 1 {
 			st.alias[id.Name] = st.resolve(normAtom(rhs))
+		}
+		// a boolean whose value is decided on this path (a protocol-version comparison, a test of a known flag)
+		if t := info.TypeOf(rhs); t != nil {
+			if bt, ok := t.Underlying().(*types.Basic); ok && bt.Info()&types.IsBoolean != 0 {
+				probe := st.clone()
+				if conts := tr.evalBool(info, rhs, probe); len(conts) == 1 && len(conts[0].st.assume) == len(st.assume) {
+					st.known[id.Name] = true
+					st.store[id.Name] = map[bool]int64{true: 1, false: 0}[conts[0].val]
+					return
+				}
+			}
 		}
 		// a boolean local that names a condition (globalSpec := flags&X == X): alias it to that condition's atom
 		if b, ok := rhs.(*ast.BinaryExpr); ok {
@@ -786,6 +944,18 @@ func (tr *tracer) execExpr(fi *FuncInfo, e ast.Expr, states []*pathState) []*pat
 						k++
 					}
 				}
+				if callee.Decl.Type.Results != nil {
+					for _, rf := range callee.Decl.Type.Results.List {
+						for _, nm := range rf.Names {
+							if t := callee.Pkg.TypesInfo.TypeOf(rf.Type); t != nil {
+								if b, ok := t.Underlying().(*types.Basic); ok && b.Info()&(types.IsInteger|types.IsBoolean) != 0 {
+									sub.store[nm.Name], sub.known[nm.Name] = 0, true
+								}
+							}
+						}
+					}
+				}
+				sub.rets = nil
 				sub.trace = append(sub.trace, TraceItem{Prim: "enter", Arg: name, Pos: c.Pos()})
 				for _, r := range tr.execList(callee, callee.Decl.Body.List, []*pathState{sub}) {
 					if r.done == "return" {
